@@ -247,6 +247,20 @@ func (fr *Frame) loopWrites(li *loopInfo) (cells map[ssa.Value]bool, heaps map[s
 			case *ssa.Go:
 				top = true
 			case *ssa.Call:
+				if fr.top && fr.contract != nil {
+					// ghosts assigned by "at call ... set" clauses of the
+					// verified function change in the loops that contain a
+					// matching call (any ordinal)
+					if name := fr.staticCalleeName(&in.Call); name != "" {
+						for _, cs := range fr.contract.CallSites {
+							if cs.Clause.Kind == "callset" && calleeMatches(cs.Callee, name) {
+								if g := vc.specs.ghost(cs.Target); g != nil && !g.IsMap {
+									heaps[g.heapName()] = true
+								}
+							}
+						}
+					}
+				}
 				e := vc.callEffects(fr, &in.Call)
 				if e.top {
 					top = true
@@ -276,6 +290,26 @@ func (fr *Frame) loopWrites(li *loopInfo) (cells map[ssa.Value]bool, heaps map[s
 		}
 	}
 	return
+}
+
+// staticCalleeName names the callee of a call the way callInner does.
+func (fr *Frame) staticCalleeName(c *ssa.CallCommon) string {
+	if _, ok := c.Value.(*ssa.Builtin); ok {
+		return ""
+	}
+	if c.IsInvoke() {
+		return fr.vc.specs.ifaceName(c)
+	}
+	var callee *ssa.Function
+	if ci, ok := fr.closures[c.Value]; ok {
+		callee = ci.fn
+	} else {
+		callee = c.StaticCallee()
+	}
+	if callee != nil {
+		return funcName(callee)
+	}
+	return fieldFuncName(c.Value)
 }
 
 // closureCellWrites lists the outer cells a closure body stores to.
@@ -448,7 +482,7 @@ func (fr *Frame) enterLoop(li *loopInfo, pre *State, pc Term) *State {
 		}
 		sort.Strings(hn)
 		for _, h := range hn {
-			if vc.specs.isPrivateHeap(h) || vc.specs.isImmutableHeap(h) {
+			if vc.specs.isPrivateHeap(h) || vc.specs.isImmutableHeap(h) || vc.specs.isSetGhostHeap(h) {
 				vc.havocHeapKeepOldBelow(st, pre, h, pc, fr.ownWatermark(pre))
 			}
 		}
